@@ -1206,7 +1206,7 @@ def render(ex):
     L.append('/-- Ids of the names the entry points mention, and `soupsieve.__all__` (what `from soupsieve import *` '
              'fetches; an unreadable `__all__` is emitted as a name that is never defined). -/')
     fields = ', '.join(f'{f} := {ids[sname]}' for f, sname in ENTRY_NAMES)
-    L.append(f'def entryIds : EntryIds := {{ {fields},\n    all := [{", ".join(str(ids[x]) for x in all_)}] }}')
+    L.append(f'def entryIds : EntryIds :=\n  {{ {fields}, all := [{", ".join(str(ids[x]) for x in all_)}] }}')
     L.append('')
     L.append('/-- What `entryIds` is supposed to denote. -/')
     L.append('def entryIdNames : List (Nat × String) := [' +
@@ -1248,6 +1248,9 @@ def render(ex):
     for k in range(0, len(table), 8):
         rows.append('  ' + ', '.join(lean_str(x) for x in table[k:k + 8]))
     L.append('def names : List String := [\n' + ',\n'.join(rows) + '\n]')
+    L.append('')
+    L.append('/-- Number of names: every name id is below it (`Graph.wellFormed graph width`). -/')
+    L.append(f'def width : Nat := {len(table)}')
     L.append('')
     L.append('end SoupVerif.Gen.Imports')
     return '\n'.join(L) + '\n'
